@@ -346,12 +346,24 @@ func condOutcomeFor(cond ssa.Value, ph *ssa.Phi, k *ssa.Const) (outcome, known b
 // kept along chains of single-predecessor blocks. Every path it removes is
 // infeasible, so it can replace Reach wherever fewer paths is the safe side.
 func ReachF(fn *ssa.Function, from *ssa.BasicBlock, cut map[Edge]bool) (seen map[int]bool, prev map[int]int) {
+	return ReachFN(fn, from, -1, cut, nil)
+}
+
+// ReachFN is ReachF started on the edge fromPred -> from (fromPred < 0: no
+// particular edge), with a set of values known to be non-nil: a phi that
+// carries one of them on the entering edge cannot compare equal to nil.
+func ReachFN(fn *ssa.Function, from *ssa.BasicBlock, fromPred int, cut map[Edge]bool, nonNil map[ssa.Value]bool) (seen map[int]bool, prev map[int]int) {
 	type state struct{ b, ob, op int }
 	seen = map[int]bool{from.Index: true}
 	prev = map[int]int{}
 	done := map[state]bool{}
 	ts := tsuccs(fn)
 	start := state{from.Index, from.Index, -1}
+	for k, p := range from.Preds {
+		if p.Index == fromPred {
+			start.op = k
+		}
+	}
 	done[start] = true
 	q := []state{start}
 	for len(q) > 0 {
@@ -372,6 +384,12 @@ func ReachF(fn *ssa.Function, from *ssa.BasicBlock, cut map[Edge]bool) (seen map
 						break
 					}
 					if st.op >= len(ph.Edges) {
+						continue
+					}
+					if nonNil[ph.Edges[st.op]] {
+						if v, nilWhenTrue, isNC := NilCheck(e.cond); isNC && v == ssa.Value(ph) && e.truth == nilWhenTrue {
+							infeasible = true
+						}
 						continue
 					}
 					k, isK := constOfValue(ph.Edges[st.op], map[ssa.Value]bool{})
